@@ -128,6 +128,7 @@ type chanState struct {
 	slots   []VC // clock of the k-th receive (k-th recv happens-before the (k+cap)-th send)
 	nsend   int
 	site    string
+	ticker  bool // a ticker's channel: the tick is there again after every receive
 }
 
 // Event is one scheduling step: goroutine G executed its pending operation.
@@ -293,8 +294,57 @@ func startWatchdog() {
 // Controlled reports whether a controlled execution is active.
 func Controlled() bool { return S != nil }
 
+// Free mode: the same harness bodies run as ordinary goroutines (real channels, real locks), for the free-running pass
+// under Go's race detector - the cooperative scheduler's hand-offs are happens-before edges that blind it. Free runs
+// decide nothing: no schedule is controlled, "quiescence" is all goroutines started through mc.Go having returned, and a run
+// that has not finished within FreeTimeout is reported as Deadlock without any claim (the goroutines are left behind).
+var (
+	freeMode     atomic.Bool
+	freeCur      atomic.Pointer[atomic.Int64] // goroutines of the current free run that have not returned yet
+	freePanics   atomic.Int64
+	FreeTimeout  = 5 * time.Second
+	FreeDeadline time.Time // if set: after this instant Run returns immediately with Cut set (budget of the pass)
+)
+
+// SetFree switches Run to free mode (for the whole process).
+func SetFree(on bool) { freeMode.Store(on) }
+
+// Free reports whether the process runs in free mode.
+func Free() bool { return freeMode.Load() }
+
+func freeRun(body func()) *Result {
+	res := &Result{}
+	if !FreeDeadline.IsZero() && time.Now().After(FreeDeadline) {
+		res.Cut = true
+		return res
+	}
+	p0 := freePanics.Load()
+	live := &atomic.Int64{} // a fresh counter per run: stragglers of an abandoned run keep decrementing their own
+	freeCur.Store(live)
+	Go(body)
+	t0 := time.Now()
+	for live.Load() > 0 {
+		if time.Since(t0) > FreeTimeout {
+			res.Deadlock = true
+			break
+		}
+		if time.Since(t0) < time.Millisecond {
+			runtime.Gosched()
+		} else {
+			time.Sleep(50 * time.Microsecond)
+		}
+	}
+	if freePanics.Load() != p0 {
+		res.Panics = append(res.Panics, PanicInfo{Value: "panic in a goroutine of a free run"})
+	}
+	return res
+}
+
 // Run executes body as goroutine 0 under the controlled scheduler until quiescence.
 func Run(body func(), opt Options) *Result {
+	if freeMode.Load() {
+		return freeRun(body)
+	}
 	if S != nil {
 		panic("mc.Run: nested execution")
 	}
@@ -596,6 +646,20 @@ func (s *Sched) chanOf(key uintptr, pin any, capacity int) *chanState {
 func Go(f func()) {
 	s := S
 	if s == nil {
+		if freeMode.Load() {
+			live := freeCur.Load()
+			live.Add(1)
+			go func() {
+				defer live.Add(-1)
+				defer func() {
+					if r := recover(); r != nil {
+						freePanics.Add(1)
+					}
+				}()
+				f()
+			}()
+			return
+		}
 		go f()
 		return
 	}
@@ -691,6 +755,8 @@ func recvImpl[T any](c <-chan T) (T, bool) {
 			cs.buf = append(cs.buf, item{val: w.val, vc: w.vc})
 			cs.nsend++
 			s.wakeG(w.g, g)
+		} else if cs.ticker {
+			cs.buf = append(cs.buf, item{val: it.val, vc: it.vc})
 		}
 		if it.val == nil {
 			return zero, true
